@@ -15,11 +15,12 @@ func Run(cfg hx.Config) (*hx.Meta, error) {
 		Cases: func(idx int, t *ga.Type, vals []*ga.Val, r *hx.Rand, out *strings.Builder) {
 			for xi, x := range vals {
 				for yi, y := range vals {
-					op := "eq"
-					if (xi+yi)%5 == 0 {
-						op = "eqc" // the one-argument curried form
+					// every pair through the two-argument form; the one-argument curried form sees every pair
+					// among the first six pool values (nil, empty and the smallest non-empty ones) and a fifth of the rest
+					fmt.Fprintf(out, "eq %d %s %s\n", idx, x.Sexp(), y.Sexp())
+					if (xi < 6 && yi < 6) || (xi+yi)%5 == 0 {
+						fmt.Fprintf(out, "eqc %d %s %s\n", idx, x.Sexp(), y.Sexp())
 					}
-					fmt.Fprintf(out, "%s %d %s %s\n", op, idx, x.Sexp(), y.Sexp())
 				}
 			}
 		},
